@@ -49,11 +49,24 @@ def refU (scope : Scope) (n : String) : Except FErr (List SrcCol) :=
   | [R] => (match dictGet? R n with | some s => .ok s | none => .error .analysis)
   | _ => .error .analysis
 
-/-- one reference (wildcards and anonymous aggregate references are outside this specification) -/
+/-- the tables a list of source lists comes from, once each, in order of first appearance -/
+def tablesOfSrcs (srcss : List (List SrcCol)) (init : List StdTable) : List StdTable :=
+  srcss.foldl (fun ts srcs => srcs.foldl (fun ts s => if ts.contains (s.schema, s.table) then ts else ts ++ [(s.schema, s.table)]) ts) init
+
+/-- the upstream tables of a relation: the tables its columns' sources come from, once each, in order of first appearance -/
+def relTables (R : Rel) : List StdTable := tablesOfSrcs (R.map (·.2)) []
+
+/-- an aggregate without column argument (`COUNT(1)`): it depends on every upstream table of every FROM / JOIN item as a whole —
+one source `(schema, table, no column)` per upstream table, item by item (a table reached through two items is listed twice) -/
+def anonOf (scope : Scope) : List SrcCol :=
+  scope.flatMap fun p => (relTables p.2).map fun t => (⟨t.1, t.2, none⟩ : SrcCol)
+
+/-- one reference (the reference `*` of `COUNT(*)` is outside this specification) -/
 def ref (scope : Scope) (r : QCol) : Except FErr (List SrcCol) :=
   match r.table, r.name, r.idx with
   | some t, some n, none => if n == "*" then .error .outside else refQ scope t n
   | none, some n, none => if n == "*" then .error .outside else refU scope n
+  | none, none, none => .ok (anonOf scope)
   | _, _, _ => .error .outside
 
 def refs (scope : Scope) : List QCol → Except FErr (List SrcCol)
@@ -116,20 +129,79 @@ def levelOK (fts : List FromTable) : Bool := (keysOf fts).all (·.isSome) && dec
 
 def nodupNames (R : Rel) : Bool := decide (R.map (·.1)).Nodup
 
+/-! ### the level of a query: one SELECT, or a set operation -/
+
+/-- the numbered output columns of one SELECT and the references each reads -/
+def curOf : List (Expr × Option String) → Nat → List (SCol × List QCol)
+  | [], _ => []
+  | it :: r, idx => (⟨Int.ofNat idx, (itemName it).getD ""⟩, colsE it.1) :: curOf r (idx + 1)
+
+/-- what flows into each column, given the references it reads -/
+def curFlow (scope : Scope) : List (SCol × List QCol) → Except FErr (List (SCol × List SrcCol))
+  | [] => .ok []
+  | (c, qs) :: r => do
+    let s ← refs scope qs
+    let b ← curFlow scope r
+    pure ((c, s) :: b)
+
+/-- column-wise merge of two branches: names (and positions) of the first, references of both; branches with a different number of
+columns are outside this specification (the analysis fails an `assert` there: `C16.union_arity_refused`) -/
+def mergeCur (a b : List (SCol × List QCol)) : Except FErr (List (SCol × List QCol)) :=
+  if a.length != b.length then .error .outside else .ok (List.zipWith (fun x y => (x.1, x.2 ++ y.2)) a b)
+
+/-- the names a SELECT branch binds in its FROM / JOIN -/
+def selKeys (s : Select) : List String := (keysOf (fromTablesOfSelect s)).filterMap id
+
+/-- **the hypothesis that excludes F-C16-7**: every select item of the branch is named, and every reference in it is `t.c` with `t`
+bound by the branch's OWN FROM / JOIN (the analysis resolves the references of all branches in ONE scope, so an unqualified
+reference, an aggregate without column, or a qualifier bound by another branch would be answered from the wrong tables).  Together
+with `levelOK` over the items of all branches (names pairwise distinct ACROSS branches) the one scope and the per-branch scopes agree. -/
+def branchOK (s : Select) : Bool :=
+  (AN.Select.cols s).all fun it => (itemName it).isSome &&
+    (colsE it.1).all fun r => match r.table, r.name, r.idx with
+      | some t, some n, none => (selKeys s).contains t && n != "*"
+      | _, _, _ => false
+
+def branchPlain : Select → Bool
+  | .mk none _ _ _ [] _ _ _ _ _ _ _ _ _ => true
+  | .mk (some []) _ _ _ [] _ _ _ _ _ _ _ _ _ => true
+  | _ => false
+
+/-- the WITH tables of a query whose own level is covered: a SELECT without LATERAL VIEW, or a set operation of such SELECTs -/
+def shape : Query → Option (List WithTable)
+  | .single (.mk (some ws) _ _ _ [] _ _ _ _ _ _ _ _ _) => some ws
+  | .union (some ws) s us => if (s :: us.map (·.2)).all branchPlain then some ws else none
+  | _ => none
+
+/-- **the flow of a query's own level over its scope.**  One SELECT: its items.  A set operation (UNION [ALL], EXCEPT, …, the
+analysis does not distinguish them): column-wise — names from the first branch, into column i flows what the i-th items of ALL
+branches read, branch after branch. -/
+def levelFlow (q : Query) (scope : Scope) : Except FErr Rel :=
+  match q with
+  | .single s => items scope (AN.Select.cols s)
+  | .union _ s us =>
+    if !((s :: us.map (·.2)).all branchOK) then .error .outside else do
+    let merged ← us.foldlM (fun acc p => mergeCur acc (curOf (AN.Select.cols p.2) 1)) (curOf (AN.Select.cols s) 1)
+    let data ← curFlow scope merged
+    pure (data.map fun p => (p.1.name, p.2))
+
+/-- WITH tables, then the level's derived tables, then the scope -/
+def flowPrefix (cat : Cat) (fts : List FromTable) (W : Except FErr Scope) (S : Scope → Except FErr Scope) : Except FErr Scope := do
+  let wenv ← W
+  if !levelOK fts then .error .outside else do
+  let rels ← S wenv
+  scopeOf cat wenv rels fts
+
 mutual
 /-- **Flow of a query**, with the WITH tables visible from outside in `wenv` -/
 def flowQ (cat : Cat) : Nat → Scope → Query → Except FErr Rel
   | 0, _, _ => .error .outside
   | f + 1, wenv, q =>
-    match q with
-    | .single (.mk (some ws) _ cols _ [] _ _ _ _ _ _ _ _ _) => do
-      let wenv ← flowWiths cat f wenv ws
-      let fts := levelFromTables q
-      if !levelOK fts then .error .outside else do
-      let rels ← flowSubs cat f wenv (derivedOf fts)
-      let scope ← scopeOf cat wenv rels fts
-      items scope cols
-    | _ => .error .outside
+    match shape q with
+    | none => .error .outside
+    | some ws => do
+      let scope ← flowPrefix cat (levelFromTables q) (flowWiths cat f wenv ws) (fun w => flowSubs cat f w (derivedOf (levelFromTables q)))
+      levelFlow q scope
 /-- WITH tables, in order; each sees the ones before it -/
 def flowWiths (cat : Cat) : Nat → Scope → List WithTable → Except FErr Scope
   | 0, _, _ => .error .outside
